@@ -249,6 +249,31 @@ class ndarray:
     def mean(self, axis=None):
         return mean(self, axis)
 
+    def all(self):
+        for x in (self._d if self.ndim == 1 else [y for r in self._d for y in r]):
+            if not x:
+                return False
+        return True
+
+    def any(self):
+        for x in (self._d if self.ndim == 1 else [y for r in self._d for y in r]):
+            if x:
+                return True
+        return False
+
+    def min(self):
+        from vf import sym
+
+        return sym.lo(self._d if self.ndim == 1 else [y for r in self._d for y in r])
+
+    def max(self):
+        from vf import sym
+
+        return sym.hi(self._d if self.ndim == 1 else [y for r in self._d for y in r])
+
+    def item(self):
+        return self._d
+
     # -- elementwise
     def _ew(self, other, f):
         if isinstance(other, ndarray):
@@ -395,10 +420,81 @@ class _C:
 c_ = _C()
 
 
-def arange(*a, **k):
-    if len(a) == 1 and isinstance(a[0], int) and not k:
-        return ndarray(list(range(a[0])), (a[0],), int64)
-    raise OutsideModel("npl.arange with float arguments (see models/xrl.py for axes)")
+ARANGE_MAX = 12  # unwinding bound for a symbolic arange length
+
+
+def arange(start=None, stop=None, step=1, dtype=None):
+    """numpy's documented contract: ceil((stop - start)/step) elements,
+    element i = start + i*step (numpy computes start + i*delta with
+    delta = (start+step)-start; identical in exact arithmetic).  A symbolic
+    length is concretised by forking up to ARANGE_MAX; longer => path
+    discarded (the harness states the bound)."""
+    import math
+
+    if stop is None:
+        start, stop = 0, start
+    if all(isinstance(x, int) and type(x) is int for x in (start, stop, step)):
+        d = list(range(start, stop, step))
+        return ndarray(d, (len(d),), dtype or int64)
+    n = math.ceil((stop - start) / step)
+    k = None
+    if n <= 0:
+        k = 0
+    else:
+        for cand in range(1, ARANGE_MAX + 1):
+            if n == cand:
+                k = cand
+                break
+    if k is None:
+        _discard()
+    d = [start + i * step for i in range(k)]
+    return ndarray(d, (k,), dtype or float64)
+
+
+def _discard():
+    from vf.h import MODEL
+
+    if MODEL:
+        from crosshair.util import IgnoreAttempt
+
+        raise IgnoreAttempt("arange longer than the unwinding bound")
+    raise OutsideModel("npl.arange beyond bound")
+
+
+def concatenate(arrays, axis=0):
+    out = []
+    for a in arrays:
+        out.extend(a.tolist() if isinstance(a, ndarray) else list(a))
+    return ndarray(out, (len(out),), None)
+
+
+def diff(a):
+    d = a.tolist() if isinstance(a, ndarray) else list(a)
+    out = [d[i + 1] - d[i] for i in range(len(d) - 1)]
+    return ndarray(out, (len(out),), float64)
+
+
+def isclose(a, b, rtol=1e-05, atol=1e-08):
+    def f(x, y):
+        dlt = x - y
+        if dlt < 0:
+            dlt = -dlt
+        ay = y if y >= 0 else -y
+        return dlt <= atol + rtol * ay
+
+    if isinstance(a, ndarray):
+        r = a._ew(b, f)
+        r.dtype = bool_
+        return r
+    return f(a, b)
+
+
+def floor(x):
+    import math
+
+    if isinstance(x, ndarray):
+        return x._ew(None, lambda v, _: math.floor(v))
+    return math.floor(x)
 
 
 def _module():
@@ -407,6 +503,7 @@ def _module():
     m = types.ModuleType("numpy")
     g = globals()
     for name in ("ndarray", "zeros", "array", "asarray", "eye", "stack", "isnan", "mean", "exp", "c_", "arange",
+                 "concatenate", "diff", "isclose", "floor",
                  "float32", "float64", "int8", "int32", "int64", "bool_", "newaxis", "nan", "inf"):
         setattr(m, name, g[name])
     m.typing = _real.typing  # annotations only
